@@ -269,6 +269,10 @@ func (w *walker) walkExpr(e ast.Expr) {
 			}
 			return
 		}
+		// close(ch)
+		if id, ok := x.Fun.(*ast.Ident); ok && id.Name == "close" && len(x.Args) == 1 {
+			w.f.Paths[w.fn] = append(w.f.Paths[w.fn], "close "+w.chanName(x.Args[0]))
+		}
 		// delete(x.f, k) writes the map held in the field
 		if id, ok := x.Fun.(*ast.Ident); ok && id.Name == "delete" && len(x.Args) == 2 {
 			if sel, ok := x.Args[0].(*ast.SelectorExpr); ok {
@@ -483,6 +487,8 @@ func (w *walker) walkStmt(s ast.Stmt) {
 		}
 		if callee := w.calleeName(x.Call); callee != "" {
 			w.f.Paths[w.fn] = append(w.f.Paths[w.fn], "defer "+callee)
+		} else if id, ok := x.Call.Fun.(*ast.Ident); ok && id.Name == "close" && len(x.Call.Args) == 1 {
+			w.f.Paths[w.fn] = append(w.f.Paths[w.fn], "defer close "+w.chanName(x.Call.Args[0]))
 		}
 		for _, a := range x.Call.Args {
 			w.walkExpr(a)
